@@ -10,6 +10,7 @@ from ..cfg import CFG, target_names
 from ..core import Ctx
 from ..flow import call_name, get_flow
 from ..project import AnalysisError, FuncInfo, ancestors, dotted, parent, src
+from ..pattern import find, find1, match
 
 LEVEL = 'other'
 EP = 'expr_parser'
@@ -349,26 +350,22 @@ def r5_chain(ctx: Ctx) -> None:
         if len(loops) != 1:
             ctx.unknown('C04.R5', m, f'{len(loops)} loops in _eval_Compare')
         lp = loops[0]
-        ok_iter = src(lp.iter).replace(' ', '') == 'zip(node.ops,node.comparators)'
+        env = {}
+        ok_iter = match(lp.iter, 'zip(node.ops, node.comparators)') and match(lp.target, '(V_op, V_comp)', env)
         ctx.check(ok_iter, 'C04.R5', m, 'chain:iter', 'iterates zip(node.ops, node.comparators)', f'iterates {src(lp.iter)!r}', lp)
-        # first left from node.left
-        first = [s for s in m.node.body if isinstance(s, ast.Assign) and src(s.targets[0]) == 'left']
-        ctx.check(bool(first) and src(first[0].value) == 'self.evaluate(node.left)', 'C04.R5', m, 'chain:first-left', 'left starts as evaluate(node.left)', 'left operand is not node.left', lp)
-        # false link -> return False, anywhere at loop-body top level after result is computed
-        tail = lp.body[-2:] if len(lp.body) >= 2 else lp.body
-        ret_false = any(isinstance(s, ast.If) and src(s.test) == 'not result' and len(s.body) == 1 and isinstance(s.body[0], ast.Return)
-                        and isinstance(s.body[0].value, ast.Constant) and s.body[0].value.value is False for s in lp.body)
-        ctx.check(ret_false, 'C04.R5', m, 'chain:false-link', 'a false link ends the chain with False', 'no `if not result: return False` in the chain loop', lp)
-        shift = isinstance(lp.body[-1], ast.Assign) and src(lp.body[-1]) == 'left = right'
-        ctx.check(shift, 'C04.R5', m, 'chain:shift', 'next link compares the previous right operand (left = right)', f'loop ends with {src(lp.body[-1])[:40]!r} instead of `left = right`', lp.body[-1])
+        first = find1(m.node.body, 'V_left = self.evaluate(node.left)', env)
+        ctx.check(first is not None and first in m.node.body, 'C04.R5', m, 'chain:first-left', 'left starts as evaluate(node.left)', 'left operand is not node.left', lp)
+        rdef = find1(lp.body, 'V_right = self.evaluate(V_comp)', env)
+        ctx.check(rdef is not None and rdef in lp.body, 'C04.R5', m, 'chain:right', 'right = evaluate(comparator)', 'right operand is not the evaluated comparator', lp)
+        # false link -> return False, at loop-body top level
+        fl_ = [s for s in lp.body if match(s, 'if not V_result:\n    return False', env)]
+        ctx.check(bool(fl_), 'C04.R5', m, 'chain:false-link', 'a false link ends the chain with False', 'no `if not <result>: return False` in the chain loop', lp)
+        shift = match(lp.body[-1], 'V_left = V_right', env)
+        ctx.check(shift, 'C04.R5', m, 'chain:shift', 'next link compares the previous right operand (left = right)',
+                  f'loop ends with {src(lp.body[-1])[:40]!r} instead of `left = right`', lp.body[-1])
         after = m.node.body[m.node.body.index(lp) + 1:]
-        ok = len(after) == 1 and isinstance(after[0], ast.Return) and isinstance(after[0].value, ast.Constant) and after[0].value.value is True
+        ok = len(after) == 1 and match(after[0], 'return True')
         ctx.check(ok, 'C04.R5', m, 'chain:all-true', 'all links true -> True', 'the chain does not end in `return True`', lp)
-        # right evaluated once per link, from the comparator
-        rdef = [s for s in lp.body if isinstance(s, ast.Assign) and src(s.targets[0]) == 'right']
-        cvar = lp.target.elts[1].id if isinstance(lp.target, ast.Tuple) and len(lp.target.elts) == 2 else None
-        ok = bool(rdef) and src(rdef[0].value) == f'self.evaluate({cvar})'
-        ctx.check(ok, 'C04.R5', m, 'chain:right', 'right = evaluate(comparator)', 'right operand is not the evaluated comparator', lp)
 
 
 # --------------------------------------------------------------------------- R6
@@ -421,24 +418,31 @@ def r6_primitives(ctx: Ctx) -> None:
     order = []
     for s in en.node.body:
         if isinstance(s, ast.If):
-            t = src(s.test)
-            if t == 'name in self._scope':
-                order.append('scope')
-            elif t == 'name in self.ctx.variables':
-                order.append('variables')
-            elif t.startswith("name == '"):
+            t = s.test
+            if isinstance(t, ast.Compare) and len(t.ops) == 1 and isinstance(t.ops[0], ast.In):
+                c = src(t.comparators[0])
+                order.append({'self._scope': 'scope', 'self.ctx.variables': 'variables', 'self.ctx.data_sources': 'data_sources'}.get(c, c))
+            elif isinstance(t, ast.Compare) and len(t.ops) == 1 and isinstance(t.ops[0], ast.Eq) and isinstance(t.comparators[0], ast.Constant):
                 if 'prims' not in order:
                     order.append('prims')
-            elif t == 'name in self.ctx.data_sources':
-                order.append('data_sources')
     ctx.check(order == ['scope', 'variables', 'prims', 'data_sources'], 'C04.R6', en, 'resolution-order', 'names resolve: scope, variables, primitives, data sources',
               f'name resolution order is {order}')
 
 
-def _name_return_table(m: FuncInfo, var: str) -> Dict[str, str]:
+def _name_return_table(m: FuncInfo, var: str = None, within=None) -> Dict[str, str]:
+    """{literal: return expression} for every `if <x> == 'literal': return …` under `within` (default: whole method).
+    `var` is a *role*: 'name' -> the local assigned from node.id.lower(); 'attr_name' / 'field_name' -> locals assigned from
+    node.attr.lower() inside the branch that tests for 'txn' / 'field'.  Local variable names themselves do not matter."""
+    root = m.node
+    if var in ('attr_name', 'field_name'):
+        want = 'txn' if var == 'attr_name' else 'field'
+        for n in ast.walk(m.node):
+            if isinstance(n, ast.If) and any(isinstance(c, ast.Constant) and c.value == want for c in ast.walk(n.test)) and 'node.value' in src(n.test):
+                root = ast.Module(body=n.body, type_ignores=[])
+                break
     out = {}
-    for n in ast.walk(m.node):
-        if isinstance(n, ast.If) and isinstance(n.test, ast.Compare) and isinstance(n.test.left, ast.Name) and n.test.left.id == var \
+    for n in ast.walk(root):
+        if isinstance(n, ast.If) and isinstance(n.test, ast.Compare) and isinstance(n.test.left, ast.Name) \
                 and len(n.test.ops) == 1 and isinstance(n.test.ops[0], ast.Eq) and isinstance(n.test.comparators[0], ast.Constant):
             if n.body and isinstance(n.body[0], ast.Return) and n.body[0].value is not None:
                 out.setdefault(n.test.comparators[0].value, src(n.body[0].value))
@@ -465,14 +469,35 @@ def _canon_method(m: FuncInfo) -> str:
     return ast.dump(mod)
 
 
-def _compare_arms(m: FuncInfo) -> Dict[str, str]:
+def _alpha(text_nodes: List[ast.AST]) -> str:
+    """source of statements with local names replaced by v0, v1, … in order of first appearance"""
+    import copy
+    names = {}
+    out = []
+    for n in text_nodes:
+        c = copy.deepcopy(n)
+        for x in ast.walk(c):
+            if isinstance(x, ast.Name) and x.id not in ('self', 'isinstance', 'str', 'set', 'ast', 'True', 'False', 'None', 'date_type'):
+                if x.id not in names:
+                    names[x.id] = f'v{len(names)}'
+                x.id = names[x.id]
+        out.append(src(c))
+    return ' ; '.join(out)
+
+
+def _op_arms(m: FuncInfo):
+    """{ast class name: (If node, subject name)} for every `isinstance(<x>, ast.<Cls>)` arm in the method"""
     arms = {}
     for n in ast.walk(m.node):
-        if isinstance(n, ast.If):
-            t = src(n.test).replace(' ', '')
-            if t.startswith('isinstance(op,ast.') and t.endswith(')'):
-                arms[t[len('isinstance(op,ast.'):-1]] = ' ; '.join(src(s) for s in n.body)
+        if isinstance(n, ast.If) and isinstance(n.test, ast.Call) and isinstance(n.test.func, ast.Name) and n.test.func.id == 'isinstance' and len(n.test.args) == 2:
+            d = dotted(n.test.args[1])
+            if d and d.startswith('ast.'):
+                arms[d[4:]] = (n, src(n.test.args[0]))
     return arms
+
+
+def _compare_arms(m: FuncInfo) -> Dict[str, str]:
+    return {k: _alpha(v[0].body) for k, v in _op_arms(m).items()}
 
 
 def r7_siblings(ctx: Ctx) -> None:
@@ -520,8 +545,10 @@ def r8_reference(ctx: Ctx) -> None:
         tgt = s.target if isinstance(s, ast.AnnAssign) else (s.targets[0] if isinstance(s, ast.Assign) else None)
         if isinstance(tgt, ast.Name) and tgt.id == '_FUNCTION_NAMES' and isinstance(s.value, ast.Set):
             fn_names = {e.value for e in s.value.elts if isinstance(e, ast.Constant)}
+    fenv = {}
+    find1(te.methods['_eval_Call'].node, 'V_fn = node.func.id.lower()', fenv)
     special = {n.comparators[0].value for n in ast.walk(te.methods['_eval_Call'].node)
-               if isinstance(n, ast.Compare) and src(n.left) == 'func_name' and isinstance(n.comparators[0], ast.Constant)}
+               if isinstance(n, ast.Compare) and isinstance(n.left, ast.Name) and n.left.id == fenv.get('V_fn') and isinstance(n.comparators[0], ast.Constant)}
     txn_funcs = fn_names | special
     view_funcs = set()
     for s in ast.walk(ec.methods['__init__'].node):
@@ -550,7 +577,7 @@ def r8_reference(ctx: Ctx) -> None:
             if not cells:
                 continue
             head = cells[0]
-            label = f'{"views" if views else "rules"}.{tname}:{head}'
+            label = f'{"views" if views else "rules"}:{head}'
             # 1. the documented signature / primitive
             sig = head.replace(', ...', '')
             if views and tname == 'primitives':
@@ -622,56 +649,54 @@ def _check_primitive_type(ctx, ref, label, prim, text, ec, ee, node) -> None:
 def r9_operators(ctx: Ctx) -> None:
     for ci in _evals(ctx):
         m = ci.methods['_eval_Compare']
+        env = {}
+        find1(m.node, 'V_left = self.evaluate(node.left)', env)
+        find1(m.node, 'for V_op, V_comp in zip(node.ops, node.comparators):\n    ANY', env) or [find1(m.node, 'V_right = self.evaluate(V_c)', env)]
+        find1(m.node, 'V_right = self.evaluate(V_comp2)', env)
+        L, R = env.get('V_left', 'left'), env.get('V_right', 'right')
         seen = set()
-        for n in ast.walk(m.node):
-            if isinstance(n, ast.If):
-                t = src(n.test).replace(' ', '')
-                if t.startswith('isinstance(op,ast.') and t.endswith(')'):
-                    name = t[len('isinstance(op,ast.'):-1]
-                    want = OP_TABLE.get(name)
-                    if want is None:
-                        ctx.fail('C04.R9', m, f'cmp:{name}', f'arm for unknown comparison class ast.{name}', n)
-                        continue
-                    seen.add(name)
-                    cmps = [c for s in n.body for c in ast.walk(s) if isinstance(c, ast.Compare) and _is_operand_cmp(c)]
-                    ok = bool(cmps) and all(len(c.ops) == 1 and isinstance(c.ops[0], want) for c in cmps)
-                    ctx.check(ok, 'C04.R9', m, f'cmp:{ci.name}:{name}', f'ast.{name} applies {want.__name__}',
-                              f'ast.{name} arm applies {[type(c.ops[0]).__name__ for c in cmps]} (expected {want.__name__}): the operator means something else', n)
-                    # operand order: left <op> right
-                    order_ok = all(_mentions(c.left, 'left') and _mentions(c.comparators[0], 'right') for c in cmps)
-                    ctx.check(order_ok, 'C04.R9', m, f'cmp-order:{ci.name}:{name}', 'left <op> right', f'ast.{name} arm compares operands in swapped order', n)
+        for name, (n, subj) in _op_arms(m).items():
+            want = OP_TABLE.get(name)
+            if want is None:
+                ctx.fail('C04.R9', m, f'cmp:{name}', f'arm for unknown comparison class ast.{name}', n)
+                continue
+            seen.add(name)
+            cmps = [c for s in n.body for c in ast.walk(s) if isinstance(c, ast.Compare) and _mentions(c, L) and _mentions(c, R)]
+            ok = bool(cmps) and all(len(c.ops) == 1 and isinstance(c.ops[0], want) for c in cmps)
+            ctx.check(ok, 'C04.R9', m, f'cmp:{ci.name}:{name}', f'ast.{name} applies {want.__name__}',
+                      f'ast.{name} arm applies {[type(c.ops[0]).__name__ for c in cmps]} (expected {want.__name__}): the operator means something else', n)
+            order_ok = all(_mentions(c.left, L) and _mentions(c.comparators[0], R) for c in cmps)
+            ctx.check(order_ok, 'C04.R9', m, f'cmp-order:{ci.name}:{name}', 'left <op> right', f'ast.{name} arm compares operands in swapped order', n)
         missing = set(OP_TABLE) - seen
         ctx.check(not missing, 'C04.R9', m, f'cmp-total:{ci.name}', 'all eight comparison operators have an arm', f'no arm for {sorted(missing)}')
         m = ci.methods['_eval_BinOp']
-        for n in ast.walk(m.node):
-            if isinstance(n, ast.If):
-                t = src(n.test).replace(' ', '')
-                if t.startswith('isinstance(node.op,ast.'):
-                    name = t[len('isinstance(node.op,ast.'):-1]
-                    want = BIN_TABLE.get(name)
-                    ops = [b for s in n.body for b in ast.walk(s) if isinstance(b, ast.BinOp)]
-                    ok = want is not None and bool(ops) and all(isinstance(b.op, want) and src(b.left) == 'left' and src(b.right) == 'right' for b in ops)
-                    ctx.check(ok, 'C04.R9', m, f'bin:{ci.name}:{name}', f'ast.{name} applies left {name} right',
-                              f'ast.{name} arm computes {[src(b) for b in ops]}', n)
+        env = {}
+        find1(m.node, 'V_left = self.evaluate(node.left)', env)
+        find1(m.node, 'V_right = self.evaluate(node.right)', env)
+        L, R = env.get('V_left'), env.get('V_right')
+        if L is None or R is None:
+            ctx.unknown('C04.R9', m, 'operands of _eval_BinOp are not evaluate(node.left) / evaluate(node.right)')
+        for name, (n, subj) in _op_arms(m).items():
+            want = BIN_TABLE.get(name)
+            ops = [b for s in n.body for b in ast.walk(s) if isinstance(b, ast.BinOp)]
+            ok = want is not None and bool(ops) and all(isinstance(b.op, want) and src(b.left) == L and src(b.right) == R for b in ops) and subj == 'node.op'
+            ctx.check(ok, 'C04.R9', m, f'bin:{ci.name}:{name}', f'ast.{name} applies left {name} right',
+                      f'ast.{name} arm computes {[src(b) for b in ops]}', n)
         m = ci.methods['_eval_UnaryOp']
-        for n in ast.walk(m.node):
-            if isinstance(n, ast.If):
-                t = src(n.test).replace(' ', '')
-                if t.startswith('isinstance(node.op,ast.'):
-                    name = t[len('isinstance(node.op,ast.'):-1]
-                    want = UN_TABLE.get(name)
-                    ops = [b for s in n.body for b in ast.walk(s) if isinstance(b, ast.UnaryOp)]
-                    ok = want is not None and bool(ops) and all(isinstance(b.op, want) and src(b.operand) == 'operand' for b in ops)
-                    ctx.check(ok, 'C04.R9', m, f'un:{ci.name}:{name}', f'ast.{name} applied to the operand', f'ast.{name} arm computes {[src(b) for b in ops]}', n)
+        env = {}
+        find1(m.node, 'V_operand = self.evaluate(node.operand)', env)
+        O = env.get('V_operand')
+        if O is None:
+            ctx.unknown('C04.R9', m, 'operand of _eval_UnaryOp is not evaluate(node.operand)')
+        for name, (n, subj) in _op_arms(m).items():
+            want = UN_TABLE.get(name)
+            ops = [b for s in n.body for b in ast.walk(s) if isinstance(b, ast.UnaryOp)]
+            ok = want is not None and bool(ops) and all(isinstance(b.op, want) and src(b.operand) == O for b in ops)
+            ctx.check(ok, 'C04.R9', m, f'un:{ci.name}:{name}', f'ast.{name} applied to the operand', f'ast.{name} arm computes {[src(b) for b in ops]}', n)
         m = ci.methods['_eval_IfExp']
         ifs = [s for s in m.node.body if isinstance(s, ast.If)]
-        ok = len(ifs) == 1 and src(ifs[0].test) == 'self.evaluate(node.test)' and src(ifs[0].body[0]) == 'return self.evaluate(node.body)' \
-            and ifs[0].orelse and src(ifs[0].orelse[0]) == 'return self.evaluate(node.orelse)'
+        ok = len(ifs) == 1 and match(ifs[0], 'if self.evaluate(node.test):\n    return self.evaluate(node.body)\nelse:\n    return self.evaluate(node.orelse)')
         ctx.check(ok, 'C04.R9', m, f'ifexp:{ci.name}', 'x if c else y: body under a truthy test, orelse otherwise', 'IfExp arms are not body/orelse under test')
-
-
-def _is_operand_cmp(c: ast.Compare) -> bool:
-    return _mentions(c, 'left') and _mentions(c, 'right')
 
 
 def _mentions(e, name) -> bool:
@@ -714,11 +739,16 @@ def r10_functions(ctx: Ctx) -> None:
         g = [n for n in ast.walk(m.node) if isinstance(n, ast.Call) and call_name(n) == 'group']
         ok = bool(g) and all(len(c.args) == 1 and isinstance(c.args[0], ast.Constant) and c.args[0].value == 1 for c in g)
         ctx.check(ok, 'C04.R10', m, 'fn:extract:group', 'extract returns the first capture group', f'extract returns {[src(c) for c in g]}')
-    for nm, want in (('strip_prefix', 'text[len(prefix):]'), ('strip_suffix', 'text[:-len(suffix)]')):
+    for nm, want in (('strip_prefix', 'V_t[len(V_p):]'), ('strip_suffix', 'V_t[:-len(V_p)]')):
         m = tc.methods.get(f'_fn_{nm}')
         if m is not None:
-            rets = [src(r.value) for r in ast.walk(m.node) if isinstance(r, ast.Return) and r.value is not None]
-            ctx.check(want in rets and 'text' in rets, 'C04.R10', m, f'fn:{nm}:slice', f'{nm} returns {want} or the text unchanged', f'{nm} returns {rets}')
+            rets = [r.value for r in ast.walk(m.node) if isinstance(r, ast.Return) and r.value is not None]
+            env = {}
+            sliced = [r for r in rets if match(r, want, env)]
+            plain = [r for r in rets if isinstance(r, ast.Name) and r.id == env.get('V_t')]
+            ctx.check(bool(sliced) and bool(plain), 'C04.R10', m, f'fn:{nm}:slice', f'{nm} returns {want.replace("V_", "")} or the text unchanged', f'{nm} returns {[src(r) for r in rets]}')
+
+
 
 
 # --------------------------------------------------------------------------- R11
